@@ -46,3 +46,139 @@ class WhenAllRefElect(Unit):
         if not re.search(r"delivered=(value|error|done)\b(?!,)", summary):
             return "model did not deliver exactly once: " + summary
         return None
+
+
+# ------------------------------------------------------------------------------------------------------------
+# RegElect: when_all_range / stop_when = the same election + the registration of the stop callback on the
+# receiver's token (REG / SET / DEREG / WAIT / CBDONE linearisation points of the external inplace_stop_source) +
+# the operation's own stop source (OWN) + the start loop + the owner destroying the operation.
+_CAS = re.compile(r"C\.(\S+) (\d+)->(\d+) (ok|fail)$")
+_LD = re.compile(r"L\.(\S+) (\d+)$")
+_RMW = re.compile(r"([AUX])\.(\S+) (\d+)->(\d+)$")
+
+class _RegElectBase(Unit):
+    driver = "?"; cfg = "shim17"; handler = "regelect"; variant = "?"
+    maxruns = {"quick": 2500, "thorough": 40000}
+    nrandom = {"quick": 150, "thorough": 2000}
+    def nkids(self, prog): return 0 if prog[0] == "-" else len(prog[0])
+    def model_args(self, prog): return "%s %s %s" % (self.variant, prog[0], prog[1])
+    def project(self, prog, events):
+        n = self.nkids(prog); out = []
+        armed = {}      # thread -> its next decisive access to op.src.state is stopSource_.request_stop()
+        elected = {}    # thread -> its fetch_sub returned 1: its next lock of ext.state is DEREG
+        regdone = False
+        for e in events:
+            m = re.match(r"t(\d+) (\S+) ?(.*)$", e)
+            t, name, rest = int(m.group(1)), m.group(2), m.group(3)
+            if name == "op.refCount":
+                out.append((t, "rc " + rest))
+                mm = _RMW.match(rest)
+                if mm and mm.group(1) == "A":
+                    armed[t] = True
+                elif mm and mm.group(1) == "U":
+                    armed[t] = False
+                    if mm.group(3) == "1":
+                        elected[t] = True
+            elif name == "op.doneOrError":
+                out.append((t, "doe " + rest))
+                mm = _RMW.match(rest)
+                if mm and mm.group(1) == "X" and mm.group(3) == "0":
+                    armed[t] = True
+            elif name == "op.src.state":
+                if not armed.get(t):
+                    continue        # the leaves' own registrations / request_stop running their callbacks: C03
+                ok, ld = _CAS.match(rest), _LD.match(rest)
+                if ok and ok.group(4) == "ok" and (ok.group(2), ok.group(3)) == ("0", "3"):
+                    out.append((t, "own SET " + rest)); armed[t] = False
+                elif (ld and int(ld.group(2)) & 1) or (ok and ok.group(4) == "fail" and int(ok.group(2)) & 1):
+                    out.append((t, "own OBS")); armed[t] = False
+                elif ok and ok.group(4) == "ok":
+                    out.append((t, "own UNEXPECTED " + rest))
+            elif name == "ext.state":
+                ok, ld = _CAS.match(rest), _LD.match(rest)
+                good = ok and ok.group(4) == "ok"
+                if elected.get(t):
+                    if good and int(ok.group(3)) == int(ok.group(2)) | 2:
+                        out.append((t, "ext DEREG " + rest)); elected[t] = False
+                    elif good:
+                        out.append((t, "ext UNEXPECTED " + rest))
+                elif t == n and not regdone:
+                    if good and (ok.group(2), ok.group(3)) == ("0", "2"):
+                        out.append((t, "ext REG " + rest)); regdone = True
+                    elif (ld and int(ld.group(2)) & 1) or (ok and ok.group(4) == "fail" and int(ok.group(2)) & 1):
+                        out.append((t, "ext REG-INLINE")); regdone = True
+                    elif good:
+                        out.append((t, "ext UNEXPECTED " + rest))
+                elif t == n + 1:
+                    # request_stop: the CAS 0->3 is SET; the re-lock after the callback returned (C.acq 1->3),
+                    # the unlock stores and the loads belong to the source (C03)
+                    if good and (ok.group(2), ok.group(3)) == ("0", "3"):
+                        out.append((t, "ext SET " + rest))
+                    elif good and (ok.group(2), ok.group(3)) != ("1", "3"):
+                        out.append((t, "ext UNEXPECTED " + rest))
+                elif good:
+                    out.append((t, "ext UNEXPECTED " + rest))
+            elif name.startswith("op.cb"):
+                if rest == "L.acq 0":
+                    continue        # spin of the blocking WAIT step
+                out.append((t, "cb " + rest))
+            elif name.startswith("!leaf") and name.endswith(".start"):
+                out.append((t, "start %s %s" % (name[5:-6], rest)))
+            elif name.startswith("!leaf") and name.endswith(".complete"):
+                if self.variant == "stopwhen":
+                    armed[t] = True
+            elif name == "!root":
+                out.append((t, "root " + rest))
+            elif name == "!op_destroyed":
+                out.append((t, "op_destroyed"))
+        return out
+    def post_check(self, prog, summary, proj):
+        if "quiescent=1" not in summary:
+            return "model not quiescent at the end of a complete implementation run: " + summary
+        if not re.search(r"delivered=(value|error|done) ", summary):
+            return "model did not deliver exactly once: " + summary
+        if " late=0 " not in summary or " badreg=0 " not in summary or " registered=0 " not in summary:
+            return "model counted a late access / a live registration at the completion: " + summary
+        return None
+
+class WhenAllRangeRegElect(_RegElectBase):
+    name = "when_all_range/RegElect"; driver = "k1_when_all_range"; variant = "range"
+    def programs(self, tier):
+        progs = [("-", sm) for sm in ("stop", "nostop", "prestop")]
+        sizes = (1, 2, 3) if tier == "quick" else (1, 2, 3, 4)
+        for n in sizes:
+            combos = list(itertools.product("ved", repeat=n))
+            if n == 2 and tier == "quick":
+                combos = [c for c in combos if c in (("v", "v"), ("v", "e"), ("e", "v"), ("d", "e"), ("v", "d"))]
+            if n == 3 and tier == "quick":
+                combos = [("v", "v", "v"), ("v", "e", "d"), ("d", "v", "e")]
+            if n == 4:
+                combos = [c for c in combos if tuple(sorted(c)) == c]
+            for c in combos:
+                for sm in ("stop", "nostop", "prestop"):
+                    if n >= 3 and sm != "stop" and tier == "quick":
+                        continue
+                    progs.append(("".join(c), sm))
+        return progs
+
+class StopWhenRegElect(_RegElectBase):
+    name = "stop_when/RegElect"; driver = "k1_stop_when"; variant = "stopwhen"
+    def programs(self, tier):
+        return [(a + b, sm) for a in "ved" for b in "ved" for sm in ("stop", "nostop", "prestop")]
+
+class WhenAllRangeRegElectASan(WhenAllRangeRegElect):
+    """Same driver under AddressSanitizer/UBSan (the destroyed operation is really freed): thorough only."""
+    name = "when_all_range/RegElect-asan"; cfg = "shimasan17"
+    maxruns = {"quick": 800, "thorough": 5000}
+    nrandom = {"quick": 50, "thorough": 300}
+    def programs(self, tier):
+        return [] if tier == "quick" else WhenAllRangeRegElect.programs(self, "quick")
+
+class StopWhenRegElectASan(StopWhenRegElect):
+    name = "stop_when/RegElect-asan"; cfg = "shimasan17"
+    maxruns = {"quick": 800, "thorough": 5000}
+    nrandom = {"quick": 50, "thorough": 300}
+    def programs(self, tier):
+        return [] if tier == "quick" else StopWhenRegElect.programs(self, tier)
+
+REGELECT_UNITS = (WhenAllRangeRegElect, StopWhenRegElect, WhenAllRangeRegElectASan, StopWhenRegElectASan)
